@@ -16,7 +16,8 @@ import logging
 from sim import devices
 from sim.canon import Log, dec_table, enc, canon_rows, canon_row
 from sim.core import outcome, ddmin_lists, draw_config
-from sim.devices import SimStore, SimClock, SimTable, SimDiskFull
+from sim.devices import (SimStore, SimClock, SimTable, SimDiskFull,
+                         SOURCE_ERROR_KINDS)
 from sim.gen import gen_table, FIELDS
 from sim.loader import load_petl
 from sim.sched import Sched, Violation, gen_schedule
@@ -154,7 +155,8 @@ def gen_case(rng, tier, g):
                               'partial-drop-full', 'full-full',
                               'partial-partial-full', 'sinkfail-full',
                               'full-shrink-full', 'full-permute-full',
-                              'partial-full-close', 'partial-full-drop'])
+                              'partial-full-close', 'partial-full-drop',
+                              'srcfail-full'])
         return {'prop': PROP, 'machine': 'tee', 'fmt': fmt, 'args': args,
                 'config': draw_config(rng, 0.25, exclude=('sort_buffersize',)),
                 'table': table, 'history': history,
@@ -162,6 +164,7 @@ def gen_case(rng, tier, g):
                 'budget': rng.choice([0, 1, 5, 20, 60, 200]),
                 'fluent': rng.random() < 0.15,
                 'drop': rng.choice([1, 1, 2, 5]),
+                'srckind': rng.choice(SOURCE_ERROR_KINDS),
                 # (not under a straddling iterator: MemorySource closes the
                 # buffer of an earlier writer when it is opened again, so
                 # releasing that writer raises - by design of that source)
@@ -195,6 +198,9 @@ def gen_case(rng, tier, g):
                 'consumers': rng.choice([1, 1, 2]),
                 'level': rng.choice([logging.INFO, logging.INFO,
                                      logging.DEBUG, logging.WARNING]),
+                'arm': [rng.randint(0, n + 1),
+                        rng.choice(SOURCE_ERROR_KINDS)]
+                if rng.random() < 0.3 else None,
                 'prefix': rng.choice(['', 'p: ', 'load (100%): ', '%s %d',
                                       '{0} {x}', 'é: '])}
     table = gen_table(rng, maxrows + 2, nfields=rng.randint(1, 3))
@@ -445,8 +451,40 @@ def _run_tee(e, case, log):
         if store.open_handles != 0:
             raise _Bad('handle-left-open', '%s: %d handles open'
                        % (what, store.open_handles))
+    def srcfail(idx, kind):
+        # the wrapped table fails part-way: the tee lets that failure through
+        # (it does not end as if the table were shorter), leaves no handle
+        # open, and a later pass over the healthy table is complete
+        from sim.devices import SOURCE_ERRORS
+        cls = SOURCE_ERRORS[kind]
+        src.arm(idx, passes=1, kind=kind)
+        it = iter(view)
+        got = []
+        ended = None
+        try:
+            for r in it:
+                got.append(canon_row(r))
+            ended = 'ended normally after %d rows' % len(got)
+        except cls:
+            pass
+        except BaseException as ex:
+            ended = 'raised %s: %s' % (type(ex).__name__, ex)
+        src.disarm()
+        if idx <= len(src.rows) and ended is not None:
+            raise _Bad('failure-not-passed-on', '%s: the wrapped table '
+                       'raised %s instead of item %d, the tee %s'
+                       % (what, cls.__name__, idx, ended))
+        del it
+        gc.collect()
+        if store.open_handles != 0:
+            raise _Bad('handle-left-open', '%s: %d handles open after a '
+                       'pass whose source failed' % (what,
+                                                     store.open_handles))
     h = case['history']
-    if h in ('partial-full-close', 'partial-full-drop'):
+    if h == 'srcfail-full':
+        srcfail(case['partial'], case.get('srckind', 'plain'))
+        full('pass after one whose source failed')
+    elif h in ('partial-full-close', 'partial-full-drop'):
         straddle(h.rsplit('-', 1)[1], case['partial'])
     elif h == 'full-shrink-full':
         full('pass 1')
@@ -517,6 +555,32 @@ def _run_timing(e, case, log):
         what = '%s(batchsize=%r) under clock script %r resolution %r' % (
             case['kind'], case['batchsize'], case['script'],
             case['resolution'])
+        if case.get('arm'):
+            # the wrapped table fails part-way: the wrapper must let exactly
+            # that failure through (not end as if the table were shorter)
+            idx, kind = case['arm']
+            from sim.devices import SOURCE_ERRORS
+            cls = SOURCE_ERRORS[kind]
+            src.arm(idx, passes=1, kind=kind)
+            it = iter(view)
+            g = []
+            try:
+                for r in it:
+                    g.append(canon_row(r))
+                ended = 'ended normally after %d rows' % len(g)
+            except cls as ex:
+                ended = None
+            except BaseException as ex:
+                ended = 'raised %s: %s' % (type(ex).__name__, ex)
+            src.disarm()
+            if idx <= len(rows) and ended is not None:
+                raise _Bad('failure-not-passed-on', '%s: the wrapped table '
+                           'raised %s instead of item %d, the wrapper %s'
+                           % (what, cls.__name__, idx, ended))
+            if g != want[:len(g)]:
+                raise _Bad('rows-differ', '%s: before the failure the '
+                           'wrapper yielded %r' % (what, g))
+            del it
         its = [iter(view) for _ in range(case['consumers'])]
         got = [[] for _ in its]
         live = list(range(len(its)))
